@@ -471,6 +471,22 @@ func (t *tokenAwareHostPolicy) updateReplicas(meta *clusterMeta, keyspace string
 	meta.replicas = newReplicas
 }
 
+// updateAllReplicas updates, for the token ring of meta, the replicas of the session keyspace and of every
+// other keyspace meta holds replicas for (those are added by KeyspaceChanged), so that no keyspace keeps
+// replicas that were computed for a previous token ring.
+// It must be called with t.mu mutex locked.
+func (t *tokenAwareHostPolicy) updateAllReplicas(meta *clusterMeta) {
+	keyspaces := []string{t.getKeyspaceName()}
+	for ks := range meta.replicas {
+		if ks != keyspaces[0] {
+			keyspaces = append(keyspaces, ks)
+		}
+	}
+	for _, ks := range keyspaces {
+		t.updateReplicas(meta, ks)
+	}
+}
+
 func (t *tokenAwareHostPolicy) SetPartitioner(partitioner string) {
 	t.mu.Lock()
 	defer t.mu.Unlock()
@@ -480,7 +496,7 @@ func (t *tokenAwareHostPolicy) SetPartitioner(partitioner string) {
 		t.partitioner = partitioner
 		meta := t.getMetadataForUpdate()
 		meta.resetTokenRing(t.partitioner, t.hosts.get(), t.logger)
-		t.updateReplicas(meta, t.getKeyspaceName())
+		t.updateAllReplicas(meta)
 		t.metadata.Store(meta)
 	}
 }
@@ -490,7 +506,7 @@ func (t *tokenAwareHostPolicy) AddHost(host *HostInfo) {
 	if t.hosts.add(host) {
 		meta := t.getMetadataForUpdate()
 		meta.resetTokenRing(t.partitioner, t.hosts.get(), t.logger)
-		t.updateReplicas(meta, t.getKeyspaceName())
+		t.updateAllReplicas(meta)
 		t.metadata.Store(meta)
 	}
 	t.mu.Unlock()
@@ -507,7 +523,7 @@ func (t *tokenAwareHostPolicy) AddHosts(hosts []*HostInfo) {
 
 	meta := t.getMetadataForUpdate()
 	meta.resetTokenRing(t.partitioner, t.hosts.get(), t.logger)
-	t.updateReplicas(meta, t.getKeyspaceName())
+	t.updateAllReplicas(meta)
 	t.metadata.Store(meta)
 
 	t.mu.Unlock()
@@ -522,7 +538,7 @@ func (t *tokenAwareHostPolicy) RemoveHost(host *HostInfo) {
 	if t.hosts.remove(host.ConnectAddress()) {
 		meta := t.getMetadataForUpdate()
 		meta.resetTokenRing(t.partitioner, t.hosts.get(), t.logger)
-		t.updateReplicas(meta, t.getKeyspaceName())
+		t.updateAllReplicas(meta)
 		t.metadata.Store(meta)
 	}
 	t.mu.Unlock()
